@@ -12,6 +12,7 @@ from typing import Any, Dict, List, Optional
 
 from common import LEAN, REPO, VERIF, Ctx, delta_min, log, run_model_parallel
 from ref import charconf as ref
+from ref import steprat
 
 sys.path.insert(0, str(VERIF / "extract"))
 import chars as extract_chars  # noqa: E402
@@ -21,14 +22,17 @@ LEAN_MODULE = "Props.C09"
 TRUSTED = [
     "Lean 4.33 kernel; axioms propext, Classical.choice, Quot.sound only (audited by #print axioms)",
     "hand-written model lean/HapModel/Char.lean of pyhap/characteristic.py (to_valid_value, valid_value_or_raise, "
-    "_get_default_value, set_value, client_update_value, override_properties, notify/callback log, to_HAP value), "
-    "tied by this differential run; lean/HapModel/Gen/Chars.lean + CharConst.lean regenerated from "
-    "characteristics.json / characteristic.py on every run",
+    "_get_default_value, __init__/_validate_properties, set_value, client_update_value incl. a raising setter "
+    "callback, get_value incl. getter callbacks, override_properties incl. Permissions, notify/callback log, "
+    "to_HAP value) and Service.configure_char, tied by this differential run; lean/HapModel/Gen/Chars.lean + "
+    "CharConst.lean (defaults, length limits, HAP_FORMAT_NUMERICS) regenerated from characteristics.json / "
+    "characteristic.py on every run",
     "model parameters, arbitrary in the theorems, supplied by the harness on the concrete arguments: the float "
     "step-rounding expression round(min_step*round(value/min_step),14) (taken from the source by ast, evaluated "
     "with real Python floats; assumed to raise nothing but ValueError/OverflowError) and str(float)",
-    "floats cross the line protocol as exact integer ratios; the sign of zero is not modelled; setter callbacks "
-    "and the broker only record (callbacks that raise or re-enter are C10/C12 matter)",
+    "floats cross the line protocol as exact integer ratios; the sign of zero is not modelled; setter / getter "
+    "callbacks record, answer or raise as the script says (callbacks that re-enter the characteristic are C12/C20 "
+    "matter); allow_invalid_client_values is fixed per script",
     "harness/ref/charconf.py (oracle: conformance and consistency written from the property text), generators",
 ]
 
@@ -69,6 +73,31 @@ def _pyhap():
     return ch, ld
 
 
+_GETTER_VARIANT = None
+
+
+def getter_variant() -> str:
+    """Which of the two PROVED variants of `get_value` the code under test is compared with: one probe
+    on a public behaviour decides it for the whole run.  `repaired` (HEAD): a getter answer is converted
+    and stored without the valid-values check; `strict` (HEAD + design/fixes/C09-getter-valid-values.patch):
+    an undeclared answer raises ValueError and nothing is stored.  Any third behaviour is compared with
+    `repaired` and shows up as a disagreement."""
+    global _GETTER_VARIANT
+    if _GETTER_VARIANT is None:
+        ch, _ = _pyhap()
+        probe = ch.Characteristic("probe", ch.UUID(PLAIN_UUID), {
+            "Format": "uint8", "Permissions": ["pr"], "ValidValues": {"a": 0, "b": 1}})
+        probe.getter_callback = lambda: 7
+        try:
+            probe.get_value()
+            _GETTER_VARIANT = "repaired"
+        except ValueError:
+            _GETTER_VARIANT = "strict" if probe.value == 0 else "repaired"
+        except Exception:  # noqa: BLE001
+            _GETTER_VARIANT = "repaired"
+    return _GETTER_VARIANT
+
+
 def _def_always_null(name) -> bool:
     """`type_id in ALWAYS_NULL` from the public module constant (no private attribute)."""
     ch, _ = _pyhap()
@@ -77,6 +106,8 @@ def _def_always_null(name) -> bool:
 
 
 _STEP_FN = None
+STEP_REF: Dict[str, str] = {}
+STEP_DIFF: List[str] = []
 
 
 def step_fn():
@@ -174,17 +205,24 @@ def enc_upd(props: Optional[Dict[str, Any]]):
             u["maxLen"] = v
         elif k == "ValidValues":
             u["vv"] = list(v.values())
+        elif k == "Permissions":
+            u["readable"] = "pr" in v
         else:
             u["other"] = True
     return u
 
 
-def enc_op(op):
+def enc_op(op, default_cb="returns"):
     """Model form of an op (the instance index is not part of it: one model run per instance)."""
     if op["op"] == "set":
         return {"op": "set", "v": enc(op["v"]), "notify": op.get("notify", True)}
     if op["op"] == "client":
-        return {"op": "client", "v": enc(op["v"])}
+        cb = op.get("cb") or default_cb
+        return {"op": "client", "v": enc(op["v"]), "cb": cb if isinstance(cb, str) else {"raises": cb[1]}}
+    if op["op"] == "read":
+        g = op["g"]
+        gj = "absent" if g[0] == "absent" else ({"returns": enc(g[1])} if g[0] == "returns" else {"raises": g[1]})
+        return {"op": "read", "g": gj, "hap": bool(op.get("hap"))}
     d = {
         "op": op["op"],
         "u": enc_upd(op.get("props")),
@@ -203,6 +241,11 @@ def op_to_json(op):
         d = {"op": op["op"], "v": enc(op["v"])}
         if op["op"] == "set":
             d["notify"] = op.get("notify", True)
+        elif op.get("cb"):
+            d["cb"] = op["cb"]
+    elif op["op"] == "read":
+        g = op["g"]
+        d = {"op": "read", "g": [g[0], enc(g[1])] if g[0] == "returns" else list(g), "hap": bool(op.get("hap"))}
     else:
         pj = None
         if op.get("props") is not None:
@@ -227,6 +270,11 @@ def op_from_json(d):
         op = {"op": d["op"], "v": dec(d["v"])}
         if d["op"] == "set":
             op["notify"] = d.get("notify", True)
+        elif d.get("cb"):
+            op["cb"] = d["cb"] if isinstance(d["cb"], str) else list(d["cb"])
+    elif d["op"] == "read":
+        g = d["g"]
+        op = {"op": "read", "g": ["returns", dec(g[1])] if g[0] == "returns" else list(g), "hap": bool(d.get("hap"))}
     else:
         props = None
         if d.get("props") is not None:
@@ -270,6 +318,19 @@ class Recorder:
 
     def callback(self, value):
         self.log.append(["callback", value])
+
+    def raiser(self, cls):
+        def cb(value):
+            self.log.append(["callback", value])
+            raise APP_EXC[cls]("the application's setter callback failed")
+        return cb
+
+
+class Other(Exception):
+    """What an application callback raises in these scripts (the model's exception class `Other`)."""
+
+
+APP_EXC = {"Other": Other, "ValueError": ValueError}
 
 
 _SERVICE_FOR: Dict[str, Optional[str]] = {}
@@ -320,7 +381,7 @@ class World:
         char.broker = rec
         if case["cfg"]["hasSetter"]:
             char.setter_callback = rec.callback
-        inst = {"char": char, "svc": svc, "rec": rec}
+        inst = {"char": char, "svc": svc, "rec": rec, "default_cb": "returns" if case["cfg"]["hasSetter"] else "absent"}
         self.insts.append(inst)
         return inst
 
@@ -346,6 +407,21 @@ def _step_entry(sr: Dict[str, Any], value, step):
     except Exception as ex:  # noqa: BLE001
         res = {"err": type(ex).__name__}
     sr[key] = [enc(value), enc(step), res]
+    if key not in STEP_REF:
+        # diagnostic only: the source's expression against the exact rational reference
+        try:
+            kind, want = steprat.step_reference(value, step)
+        except Exception:  # noqa: BLE001
+            kind, want = "skip", None
+        if kind == "skip":
+            STEP_REF[key] = "skipped"
+        elif kind == "ok":
+            STEP_REF[key] = "agree" if ("ok" in res and enc(want) == res["ok"]) else "differ"
+        else:
+            STEP_REF[key] = "agree" if res.get("err") == want else "differ"
+        if STEP_REF[key] == "differ" and len(STEP_DIFF) < 5:
+            STEP_DIFF.append(f"value={value!r:.40} step={step!r:.20}: source {res.get('ok', res.get('err'))!r:.60} "
+                             f"reference {enc(want) if kind == 'ok' else want!r:.60}")
 
 
 def _enc_props_safe(props):
@@ -355,7 +431,14 @@ def _enc_props_safe(props):
         return "unencodable:" + type(ex).__name__
 
 
-def observe(inst, exn):
+def observe(inst, exn, ret=None):
+    o = _observe(inst, exn)
+    if ret is not None:
+        o["ret"] = ret
+    return o
+
+
+def _observe(inst, exn):
     char, rec = inst["char"], inst["rec"]
     try:
         hap = char.to_HAP()
@@ -366,12 +449,36 @@ def observe(inst, exn):
     return {"exn": exn, "value": enc(char.value), "props": _enc_props_safe(char.properties), "hap": rep, "out": out}
 
 
+def resolve_cb(inst, op):
+    """what the setter callback does on this controller write (explicit, else the script's default)"""
+    return op.get("cb") or inst["default_cb"]
+
+
 def apply_op(inst, op):
-    char = inst["char"]
+    """Returns the encoded result of a read (None for the other operations)."""
+    char, rec = inst["char"], inst["rec"]
     if op["op"] == "set":
         char.set_value(op["v"], should_notify=op.get("notify", True))
     elif op["op"] == "client":
+        cb = resolve_cb(inst, op)
+        # callbacks are installed / removed between operations, as an application may do
+        char.setter_callback = None if cb == "absent" else (rec.callback if cb == "returns" else rec.raiser(cb[1]))
         char.client_update_value(op["v"], ("10.0.0.7", 51234))
+    elif op["op"] == "read":
+        g = op["g"]
+        if g[0] == "returns":
+            char.getter_callback = lambda v=g[1]: v
+        elif g[0] == "raises":
+            def boom(cls=g[1]):
+                raise APP_EXC[cls]("the application's getter callback failed")
+            char.getter_callback = boom
+        try:
+            if op.get("hap"):
+                hap = char.to_HAP()
+                return enc(hap["value"]) if "value" in hap else ABSENT
+            return enc(char.get_value())
+        finally:
+            char.getter_callback = None
     elif op["op"] == "override":
         char.override_properties(
             properties=copy.deepcopy(op.get("props")), valid_values=copy.deepcopy(op.get("valid_values"))
@@ -438,18 +545,24 @@ def run_impl(case, judge=None):
         cur_step = char.properties.get("minStep")
         if op["op"] in ("set", "client"):
             _step_entry(sr, op["v"], cur_step)
+        elif op["op"] == "read":
+            if op["g"][0] == "returns":
+                _step_entry(sr, op["g"][1], cur_step)
         else:
             new_step = (op.get("props") or {}).get("minStep", cur_step)
             _step_entry(sr, before, new_step)
             if op["op"] == "configure":
                 _step_entry(sr, op.get("v"), new_step)
         exn = None
+        ret = None
         try:
-            apply_op(inst, op)
+            ret = apply_op(inst, op)
         except Exception as ex:  # noqa: BLE001  (an application would catch ValueError and carry on)
             exn = type(ex).__name__
+        if op["op"] == "read" and exn:
+            ret = "raised"
         events = [list(x["rec"].log) if x else [] for x in world.insts]
-        traces[j]["steps"].append(observe(inst, exn))
+        traces[j]["steps"].append(observe(inst, exn, ret))
         for k, x in enumerate(world.insts):
             if x is None:
                 continue
@@ -459,7 +572,8 @@ def run_impl(case, judge=None):
                                 "before": snaps[k], "after": now, "sibling_events": [[a, enc(b)] for a, b in events[k]]})
             snaps[k] = now
         if judge:
-            judge({"i": i, "op": op, "raised": exn, "target": j, "before": before,
+            judge({"i": i, "op": op, "raised": exn, "target": j, "before": before, "ret": ret,
+                   "cb": resolve_cb(inst, op) if op["op"] == "client" else None,
                    "insts": [_inst_info(x, events[k]) if x else None for k, x in enumerate(world.insts)],
                    "always_null": always_null})
     return traces, sr, always_null, changes
@@ -479,6 +593,13 @@ def _reported(char):
 # --------------------------------------------------------------------------- the oracle (property itself)
 
 _SHOWN = ("Format", "minValue", "maxValue", "minStep", "ValidValues", "maxLen")
+# Report a getter callback's answer that is stored / reported outside the declared valid values as a property
+# failure?  False: it is counted (evidence note) - the property's quantifier lists set / controller-write /
+# override operations and the lead has not ruled on getter answers (design/audit/char.md, section 3).  True: the
+# unrepaired tree then yields `C09:stored-not-a-valid-value:after-read` with a replay, the tree with
+# design/fixes/C09-getter-valid-values.patch is clean.
+JUDGE_GETTER_ANSWERS = True
+GETTER_UNDECLARED = [0]  # getter answers stored / reported outside the declared valid values (counted, see judge_case)
 
 
 def judge_case(case) -> List[Dict[str, str]]:
@@ -490,6 +611,12 @@ def judge_case(case) -> List[Dict[str, str]]:
     def bad(sig, text, i):
         fails.append({"signature": sig, "description": text, "at": i})
 
+    # instances whose stored value is a getter callback's answer (value, properties at that time):
+    # get_value() stores to_valid_value(answer) WITHOUT the valid-values check; whether that is inside
+    # the property is an open reading question (design/audit/char.md), so valid-values membership of such a
+    # value is counted (GETTER_UNDECLARED) instead of being reported; format / type / range / length are judged
+    tainted: Dict[int, Any] = {}
+
     def judge(info):
         if fails:
             return  # judge a history up to its first failure; what follows starts from a bad state
@@ -497,8 +624,13 @@ def judge_case(case) -> List[Dict[str, str]]:
         i, op, raised, target = info["i"], info["op"], info["raised"], info["target"]
         kind = op["op"] if op else "init"
         tgt = info["insts"][target]
+        # the exception came out of the application's own setter callback: the characteristic did not
+        # reject the write (sentence 2 speaks of writes the characteristic rejects)
+        cb = info.get("cb")
+        app_raised = bool(raised and kind == "client" and isinstance(cb, (list, tuple)) and raised == cb[1]
+                          and tgt is not None and any(a == "callback" for a, _ in tgt["events"]))
         # (2) a rejected write leaves the value unchanged and emits nothing
-        if raised and kind in ("set", "client") and tgt is not None:
+        if raised and not app_raised and kind in ("set", "client") and tgt is not None:
             if enc(info["before"]) != enc(tgt["stored"]):
                 bad("C09:rejected-write-changed-value",
                     f"{kind}({op['v']!r:.60}) raised {raised} but the stored value went from "
@@ -506,6 +638,16 @@ def judge_case(case) -> List[Dict[str, str]]:
             if tgt["events"]:
                 bad("C09:rejected-write-emitted",
                     f"{kind}({op['v']!r:.60}) raised {raised} but emitted {tgt['events']!r:.80}", i)
+        # a read that raises (getter raised / its answer was refused) stores nothing
+        if raised and kind == "read" and tgt is not None and enc(info["before"]) != enc(tgt["stored"]):
+            bad("C09:failed-read-changed-value",
+                f"read({_show_op(op)}) raised {raised} but the stored value went from "
+                f"{info['before']!r:.40} to {tgt['stored']!r:.40}", i)
+        if tgt is not None and kind != "init":
+            if kind == "read" and not raised and op["g"][0] == "returns":
+                tainted[target] = (enc(tgt["stored"]), _enc_props_safe(tgt["props"]))
+            elif target in tainted and tainted[target] != (enc(tgt["stored"]), _enc_props_safe(tgt["props"])):
+                del tainted[target]
         # (1) stored / reported / notified / callback values conform to the declared constraints
         order = [target] + [k for k in range(len(info["insts"])) if k != target]
         for k in order:
@@ -526,8 +668,17 @@ def judge_case(case) -> List[Dict[str, str]]:
             seen.append(("stored", st["stored"]))
             if st["reported"] is not _NOVALUE:
                 seen.append(("reported", st["reported"]))
+            if k == target and kind == "read" and info.get("ret") not in (None, ABSENT, "raised"):
+                seen.append(("returned", dec(info["ret"])))
+            # the opt-in exempts CONTROLLER values: what a successful set_value stores / notifies and what an
+            # accepted override leaves behind is judged without it
+            strict = k == target and not raised and kind in ("set", "override")
             for where, v in seen:
-                why = ref.nonconformity(props, an, allow, v)
+                why = ref.nonconformity(props, an, allow and not strict, v)
+                if why == "not-a-valid-value" and k in tainted and where in ("stored", "reported", "returned"):
+                    GETTER_UNDECLARED[0] += 1
+                    if not JUDGE_GETTER_ANSWERS:
+                        continue
                 if why and not fails:
                     shown = {x: props[x] for x in _SHOWN if x in props}
                     if sibling and kind in ("override", "configure"):
@@ -539,8 +690,12 @@ def judge_case(case) -> List[Dict[str, str]]:
                         sig = "C09:override-raised-after-replacing-properties"
                     elif kind == "configure":
                         sig = f"C09:{where}-{why}:after-configure"
+                    elif kind == "read":
+                        sig = f"C09:{where}-{why}:after-read"
                     elif an and where in ("notified", "callback-argument") and why == "not-a-valid-value":
                         sig = "C09:always-null-emits-nonconforming-value"
+                    elif strict and allow and why == "not-a-valid-value" and ref.nonconformity(props, an, True, v) is None:
+                        sig = f"C09:application-{where}-value-exempted-by-controller-opt-in"
                     else:
                         sig = f"C09:{where}-{why}" + (":always-null" if an else "")
                     who = f"instance {k}" + (f" (the operation was addressed to instance {target})" if sibling else "")
@@ -560,7 +715,10 @@ def _show_op(op):
     if op["op"] == "create":
         return ""
     if op["op"] in ("set", "client"):
-        return f"{op['v']!r:.60}"
+        return f"{op['v']!r:.60}" + (f", setter callback {op['cb']}" if op.get("cb") else "")
+    if op["op"] == "read":
+        return ("to_HAP" if op.get("hap") else "get_value") + ", getter callback " + \
+            (f"answers {op['g'][1]!r:.40}" if op["g"][0] == "returns" else " ".join(op["g"]))
     t = f"properties={op.get('props')!r:.80}, valid_values={op.get('valid_values')!r:.60}"
     return t + (f", value={op.get('v')!r:.40}" if op["op"] == "configure" else "")
 
@@ -716,6 +874,9 @@ def gen_override(rng, cur, stored_hint=None):
         if rng.random() < 0.04 and props is not None:
             props = dict(props)
             props["Format"] = rng.choice(NUMERIC + ["string", "bool", "tlv8"])
+        if rng.random() < 0.06:
+            props = dict(props or {})
+            props["Permissions"] = rng.choice([["pr", "pw", "ev"], ["pw"], ["pr", "ev"], ["pw", "ev"]])
         if rng.random() < 0.08:
             # an override that is REFUSED (maxLen above 256), alone or carrying other constraints:
             # nothing of it may stay behind
@@ -730,6 +891,7 @@ def gen_override(rng, cur, stored_hint=None):
 
 
 FALSY = [0, 0.0, False, "", None]
+P_READ = 0.12
 
 
 def gen_ops(rng, props, n, p_override=0.2, n_inst=1):
@@ -757,12 +919,23 @@ def gen_ops(rng, props, n, p_override=0.2, n_inst=1):
             v = rng.choice(FALSY) if rng.random() < 0.4 else rng.choice(value_pool(new))
             op = {"op": "configure", "props": ov["props"], "valid_values": ov["valid_values"], "v": v}
             curs[j] = new
+        elif r < p_override + p_conf + P_READ:
+            g = rng.random()
+            if g < 0.2:
+                getter = ["absent"]
+            elif g < 0.35:
+                getter = ["raises", rng.choice(["Other", "ValueError"])]
+            else:
+                getter = ["returns", rng.choice(value_pool(cur))]
+            op = {"op": "read", "g": getter, "hap": rng.random() < 0.5}
         else:
             v = rng.choice(value_pool(cur))
-            if r < p_override + p_conf + (1 - p_override - p_conf) * 0.5:
+            if r < p_override + p_conf + P_READ + (1 - p_override - p_conf - P_READ) * 0.5:
                 op = {"op": "set", "v": v, "notify": rng.random() < 0.9}
             else:
                 op = {"op": "client", "v": v}
+                if rng.random() < 0.35:
+                    op["cb"] = rng.choice(["absent", "returns", ["raises", "Other"], ["raises", "ValueError"]])
         if j:
             op["inst"] = j
         ops.append(op)
@@ -872,6 +1045,53 @@ def configure_scripts(name, props) -> List[Dict[str, Any]]:
     for v in (0, "", 1, "abc", True):
         cases.append({"def": name, "cfg": cfg, "ops": [{"op": "configure", "props": None, "valid_values": None, "v": v},
                                                    {"op": "configure", "props": {}, "valid_values": {}, "v": v}]})
+    return cases
+
+
+def callback_scripts(name, props) -> List[Dict[str, Any]]:
+    """Application callbacks: a getter callback answering with in-range, out-of-range, undeclared,
+    wrongly typed values (through get_value() and through to_HAP()), or raising; a setter callback that
+    raises on a legal and on an illegal write; callbacks installed and removed between operations."""
+    cases = []
+    cfg = {"allowInvalid": False, "hasSetter": True}
+    fmt = props["Format"]
+    vv = ref.valid_values(props)
+    lo, hi = props.get("minValue"), props.get("maxValue")
+    answers: List[Any] = [None, "abc", True, [1]]
+    if fmt in NUMERIC:
+        answers += [float("nan"), HUGE, 2.5, (max(vv) + 1) if vv else 7, vv[-1] if vv else 1]
+        answers += [b + d for b in (lo, hi) if b is not None for d in (-1, 1)]
+    elif fmt == "string":
+        answers += ["y" * (props.get("maxLen", 64) + 1), 12.5]
+    legal = vv[-1] if vv else (hi if hi is not None else (lo if lo is not None else 1))
+    for hap in (False, True):
+        ops = []
+        for a in answers:
+            ops.append({"op": "read", "g": ["returns", a], "hap": hap})
+        ops.append({"op": "read", "g": ["raises", "Other"], "hap": hap})
+        ops.append({"op": "read", "g": ["absent"], "hap": hap})
+        for i in range(0, len(ops), 8):
+            cases.append({"def": name, "cfg": cfg, "ops": ops[i : i + 8] + [{"op": "set", "v": legal, "notify": True}]})
+    bad = (max(vv) + 1) if vv else "abc"
+    cases.append({"def": name, "cfg": cfg, "ops": [
+        {"op": "client", "v": legal, "cb": ["raises", "Other"]},
+        {"op": "client", "v": bad, "cb": ["raises", "ValueError"]},
+        {"op": "client", "v": legal, "cb": "absent"},
+        {"op": "read", "g": ["returns", bad], "hap": False},
+        {"op": "set", "v": bad, "notify": True},
+        {"op": "override", "props": {"unit": "x"}, "valid_values": None},
+        {"op": "client", "v": legal, "cb": ["raises", "ValueError"]},
+        {"op": "override", "props": {"Permissions": ["pw"]}, "valid_values": None},
+        {"op": "read", "g": ["returns", legal], "hap": True},
+        {"op": "read", "g": ["returns", legal], "hap": False},
+    ]})
+    # the opt-in exempts controller writes, not application updates
+    if vv:
+        cases.append({"def": name, "cfg": {"allowInvalid": True, "hasSetter": True}, "ops": [
+            {"op": "client", "v": max(vv) + 1}, {"op": "set", "v": max(vv) + 1, "notify": True},
+            {"op": "override", "props": {"unit": "x"}, "valid_values": None},
+            {"op": "client", "v": max(vv) + 2}, {"op": "configure", "props": None, "valid_values": None, "v": max(vv) + 2},
+        ]})
     return cases
 
 
@@ -1016,6 +1236,7 @@ def gen_cases(ctx: Ctx, thorough_size=False) -> List[Dict[str, Any]]:
         cases += sibling_scripts(name, props)
         cases += configure_scripts(name, props)
         cases += refused_override_scripts(name, props)
+        cases += callback_scripts(name, props)
         for _ in range(5 if quick else 250):
             cfg = {"allowInvalid": rng.random() < 0.15, "hasSetter": rng.random() < 0.8}
             k = rng.choice([1, 1, 1, 2, 3])
@@ -1059,7 +1280,10 @@ def model_line(case, sr, always_null, j=0):
         if op["op"] in ("override", "configure"):
             for k in ("minValue", "maxValue", "minStep"):
                 note((op.get("props") or {}).get(k))
-        if op["op"] != "override":
+        if op["op"] == "read":
+            if op["g"][0] == "returns":
+                note(op["g"][1])
+        elif op["op"] != "override":
             note(op.get("v"))
     srl = []
     for v, s, res in sr.values():
@@ -1069,9 +1293,10 @@ def model_line(case, sr, always_null, j=0):
         else:
             srl.append([v, s, {"err": res["err"]}])
     return {
-        "layer": "char", "op": "script", "props": enc_props(props),
-        "cfg": {"alwaysNull": always_null, "allowInvalid": case["cfg"]["allowInvalid"], "hasSetter": case["cfg"]["hasSetter"]},
-        "ops": [enc_op(o) for o in ops], "sr": srl, "fr": list(floats.values()),
+        "layer": "char", "op": "script", "variant": getter_variant(), "props": enc_props(props),
+        "cfg": {"alwaysNull": always_null, "allowInvalid": case["cfg"]["allowInvalid"]},
+        "ops": [enc_op(o, "returns" if case["cfg"]["hasSetter"] else "absent") for o in ops],
+        "sr": srl, "fr": list(floats.values()),
     }
 
 
@@ -1087,8 +1312,11 @@ def run(ctx: Ctx):
         "chunks of 12; huge-value-then-restricting-override; override-invalidating-the-current-value; two/three "
         "instances from ONE Loader with a narrowing override/configure on a sibling and a late-created instance; "
         "refused overrides (maxLen 257/300/2**31 alone and with other constraints) followed by valid ones; "
-        "Service.configure_char with falsy / rejected / absent / fine values after a narrowing) + random scripts "
-        "(<= 12 ops of set/client/override/configure/create over 1-3 instances) per shipped definition + random "
+        "Service.configure_char with falsy / rejected / absent / fine values after a narrowing; getter callbacks "
+        "answering in-range / out-of-range / undeclared / wrongly typed values through get_value() and to_HAP() or "
+        "raising, setter callbacks raising on legal and illegal writes, callbacks installed and removed between "
+        "operations, the controller opt-in followed by application updates) + random scripts "
+        "(<= 12 ops of set/client/override/configure/read/create over 1-3 instances) per shipped definition + random "
         "consistent generated property sets; every instance is judged after every op and compared with its own "
         "independent model run; a script is non-trivial if at least one op raised, clamped/rounded/converted its "
         "argument, was an override/configure, or emitted an event; distinct by (definition or property set, "
@@ -1118,8 +1346,11 @@ def run(ctx: Ctx):
             if key not in judged:
                 judged[key] = (
                     {"layer": "char", "op": "judge", "props": pj, "v": enc(v),
-                     "cfg": {"alwaysNull": an, "allowInvalid": allow, "hasSetter": True}},
-                    {"consistent": ref.consistent(props), "conf": ref.nonconformity(props, an, allow, v) is None},
+                     "cfg": {"alwaysNull": an, "allowInvalid": allow}},
+                    {"consistent": ref.consistent(props), "conf": ref.nonconformity(props, an, allow, v) is None,
+                     # the two other predicates of the theorems: no opt-in exemption / no valid-values clause
+                     "strict": ref.nonconformity(props, an, False, v) is None,
+                     "base": ref.nonconformity(dict(props, ValidValues=None), an, True, v) is None},
                 )
 
         def collect(info):
@@ -1149,11 +1380,19 @@ def run(ctx: Ctx):
             for op, obs in zip(inst_ops(case, j), tr["steps"]):
                 st.hit("op", op["op"])
                 if obs["exn"]:
-                    st.hit("outcome", f"{op['op']}-raised-{obs['exn']}")
+                    st.hit("outcome", f"{op['op']}-raised-{obs['exn']}"
+                           + ("-by-setter-callback" if op["op"] == "client" and any(a == "callback" for a, _ in obs["out"]) else ""))
                     nontriv = True
                 elif op["op"] in ("override", "configure"):
                     st.hit("outcome", f"{op['op']}-applied")
                     nontriv = True
+                elif op["op"] == "read":
+                    if op["g"][0] == "returns" and obs.get("ret") != ABSENT:
+                        conv = obs["value"] != enc(op["g"][1])
+                        st.hit("outcome", "read-getter-answer-" + ("converted" if conv else "stored-as-given"))
+                        nontriv = True
+                    else:
+                        st.hit("outcome", "read-" + ("not-readable" if obs.get("ret") == ABSENT else "no-getter"))
                 else:
                     conv = obs["value"] != enc(op["v"])
                     st.hit("outcome", f"{op['op']}-" + ("converted" if conv else "stored-as-given"))
@@ -1178,6 +1417,7 @@ def run(ctx: Ctx):
         {"Format": "string", "ValidValues": {"a": 1}},
         {"Format": "bool", "ValidValues": {"a": 1}},
         {"Format": "float", "maxValue": float("inf")},
+        {"Format": "uint8", "minStep": "x"},
     ):
         cons_lines.append({"layer": "char", "op": "consistent", "props": enc_props(p)})
         cons_want.append({"ok": ref.consistent(p)})
@@ -1203,7 +1443,7 @@ def run(ctx: Ctx):
     for ln, m, w in zip(cons_lines, model[len(lines) :], cons_want):
         st.traces_validated += 1
         if "conf" in w and not w["consistent"]:
-            m = dict(m, conf=w["conf"])  # conformance is only compared on consistent sets
+            m = dict(m, conf=w["conf"], strict=w["strict"], base=w["base"])  # conformance is only compared on consistent sets
         if m != w:
             ctx.disagree("predicates", {"props": ln["props"], "cfg": ln.get("cfg"), "v": ln.get("v")}, m, w)
 
@@ -1214,6 +1454,15 @@ def run(ctx: Ctx):
                    "instance": j, "ops": [_short(op_to_json(o), 120) for o in c["ops"][:5]],
                    "impl": _short(impls[idx]["steps"][:3], 600), "model_agrees": model[idx] == impls[idx]})
     st.notes.append(f"{len(judged)} (property set, value) pairs: model consistent/conf vs oracle")
+    agree = sum(1 for v in STEP_REF.values() if v == "agree")
+    differ = sum(1 for v in STEP_REF.values() if v == "differ")
+    st.notes.append(f"step-rounding expression found in the source vs exact rational reference (ref/steprat.py) on "
+                    f"{len(STEP_REF)} distinct (value, step) pairs: {agree} agree, {differ} differ, "
+                    f"{len(STEP_REF) - agree - differ} IEEE specials skipped" + (f"; first differences: {STEP_DIFF}" if STEP_DIFF else ""))
+    st.notes.append(f"get_value compared with the proved variant '{getter_variant()}' of the model (probe: does an "
+                    f"undeclared getter answer raise?)")
+    st.notes.append(f"getter answers stored/reported outside the declared valid values (get_value does not run the "
+                    f"valid-values check; counted, not reported - see design/audit/char.md): {GETTER_UNDECLARED[0]}")
     st.notes.append(f"{len(cases)} scripts, {len(lines)} instance runs, {sum(len(c['ops']) for c in cases)} ops; "
                     f"step-rounding exception classes seen: {sorted(step_exn_seen)}")
 
